@@ -1,14 +1,22 @@
 """Un-refactoring of *new* private helpers.
 
-"Extract method" is the commonest behaviour-preserving refactor, and it would move anchored statements
-out of the functions the rules look at.  Private helpers (methods `self._x(...)` of the same class, or
-module-level `_x(...)`) that do not exist in the committed baseline and have a simple shape are inlined
-back into their call sites in the in-memory AST before any analysis runs.  A helper is inlined only when
-every call of it is in a statement position (`self._x(..)`, `v = self._x(..)`, `return self._x(..)`,
-with or without `await`) and its body has no yield, no nested definition, no *args/**kwargs, and no
-`return` other than an optional last top-level one.  Parameters are substituted by the argument
-expressions (simple arguments directly, others through a temporary); the helper's locals get a suffix.
-Anything that does not fit is left exactly as written (the rules then see the new helper as it is)."""
+"Extract method" is the commonest behaviour-preserving refactor, and it would move anchored statements out of the
+functions the rules look at.  Private helpers (methods `_x` of a class of the module, or module-level `_x(...)`) that do
+not exist in the committed baseline and have a simple shape are inlined back into their call sites in the in-memory AST
+before any analysis runs.
+
+ statement helpers   called as a whole statement - `self._x(..)`, `v = self._x(..)`, `return self._x(..)`,
+                     `raise _x(..)`, with or without `await`, also on another receiver of the same module
+                     (`self._pool._x(..)`: `self` in the body becomes that receiver).  The body has no yield, nested
+                     definition or *args/**kwargs, and every `return` is in tail position (the last statement, or the last
+                     statement of an if/else branch that is itself in tail position; guard clauses count).  Returns become
+                     assignments / returns / raises of the calling form.
+ expression helpers  the body is a single `return <expr>` (docstring aside) without await / yield: every call, anywhere in
+                     an expression, is replaced by the expression with the parameters substituted.
+ Decorators `@staticmethod` / `@classmethod` are understood (no `self`).
+Parameters are substituted by the argument expressions (simple arguments directly, others through a temporary); helper locals
+get a suffix only where they clash with a name the caller uses.  Anything that does not fit is left exactly as written
+(the rules then see the new helper as it is)."""
 from __future__ import annotations
 
 import ast
@@ -38,8 +46,52 @@ def _strip_doc(body: list[ast.stmt]) -> list[ast.stmt]:
     return body
 
 
+def _kind(fn: T.Any) -> str | None:
+    """'method' (takes self), 'static' (staticmethod / classmethod / module function: no receiver parameter), or None."""
+    decos = [ast.unparse(d) for d in fn.decorator_list]
+    if not decos:
+        return "method"
+    if decos == ["staticmethod"]:
+        return "static"
+    if decos == ["classmethod"]:
+        return "class"
+    return None
+
+
+def _tail_returns_only(stmts: list[ast.stmt]) -> bool:
+    """Every Return in `stmts` is in tail position."""
+    for i, st in enumerate(stmts):
+        last = i == len(stmts) - 1
+        if isinstance(st, ast.Return):
+            if not last:
+                return False
+        elif isinstance(st, ast.If) and last:
+            if not _tail_returns_only(st.body) or not _tail_returns_only(st.orelse):
+                return False
+        elif any(isinstance(x, ast.Return) for x in ast.walk(st)):
+            return False
+    return True
+
+
+def _guard_to_else(stmts: list[ast.stmt]) -> list[ast.stmt]:
+    """`if C: ...return` followed by rest  ->  `if C: ...return else: rest` (so that returns are in tail position)."""
+    out: list[ast.stmt] = []
+    for i, st in enumerate(stmts):
+        if isinstance(st, ast.If):
+            st = _clone(st)
+            st.body = _guard_to_else(st.body)
+            st.orelse = _guard_to_else(st.orelse)
+            rest = stmts[i + 1:]
+            if rest and not st.orelse and st.body and isinstance(st.body[-1], (ast.Return, ast.Raise)):
+                st.orelse = _guard_to_else(rest)
+                out.append(st)
+                return out
+        out.append(st)
+    return out
+
+
 def inlinable(fn: T.Any) -> bool:
-    if fn.decorator_list or fn.args.vararg or fn.args.kwarg or fn.args.posonlyargs:
+    if _kind(fn) is None or fn.args.vararg or fn.args.kwarg or fn.args.posonlyargs:
         return False
     body = _strip_doc(fn.body)
     if not body:
@@ -47,10 +99,25 @@ def inlinable(fn: T.Any) -> bool:
     for n in ast.walk(fn):
         if isinstance(n, (ast.Yield, ast.YieldFrom, ast.Lambda, ast.ClassDef, ast.Global, ast.Nonlocal)) or (isinstance(n, FUNC_KINDS) and n is not fn):
             return False
-    rets = [n for n in ast.walk(fn) if isinstance(n, ast.Return)]
-    if len(rets) > 1 or (rets and rets[0] is not body[-1]):
-        return False
-    return True
+    return _tail_returns_only(_guard_to_else(body))
+
+
+def expression_helper(fn: T.Any) -> ast.expr | None:
+    if _kind(fn) is None or fn.args.vararg or fn.args.kwarg or fn.args.posonlyargs or isinstance(fn, ast.AsyncFunctionDef):
+        return None
+    def as_expr(stmts: list[ast.stmt]) -> ast.expr | None:
+        if len(stmts) == 1 and isinstance(stmts[0], ast.Return) and stmts[0].value is not None:
+            return stmts[0].value
+        if len(stmts) == 1 and isinstance(stmts[0], ast.If) and stmts[0].orelse:
+            a, b = as_expr(stmts[0].body), as_expr(stmts[0].orelse)
+            if a is not None and b is not None:
+                return ast.copy_location(ast.IfExp(test=stmts[0].test, body=a, orelse=b), stmts[0])
+        return None
+
+    e = as_expr(_guard_to_else(_strip_doc(fn.body)))
+    if e is not None and not any(isinstance(x, (ast.Await, ast.Yield, ast.YieldFrom, ast.Lambda, ast.NamedExpr)) for x in ast.walk(e)):
+        return e
+    return None
 
 
 def _call_of(st: ast.stmt) -> tuple[ast.Call, str, T.Any] | None:
@@ -71,15 +138,25 @@ def _call_of(st: ast.stmt) -> tuple[ast.Call, str, T.Any] | None:
     if isinstance(st, ast.Return) and st.value is not None:
         c = unwrap(st.value)
         return (c, "return", None) if c else None
+    if isinstance(st, ast.Raise) and st.exc is not None and st.cause is None:
+        c = unwrap(st.exc)
+        return (c, "raise", None) if c else None
     return None
 
 
-def _helper_name(call: ast.Call, method: bool) -> str | None:
+def _chain_ok(e: ast.AST) -> bool:
+    while isinstance(e, ast.Attribute):
+        e = e.value
+    return isinstance(e, ast.Name)
+
+
+def _helper_ref(call: ast.Call, names: T.Container[str]) -> tuple[str, ast.expr | None] | None:
+    """(helper name, receiver expression or None) if `call` calls one of `names`."""
     f = call.func
-    if method and isinstance(f, ast.Attribute) and isinstance(f.value, ast.Name) and f.value.id == "self":
-        return f.attr
-    if not method and isinstance(f, ast.Name):
-        return f.id
+    if isinstance(f, ast.Name) and f.id in names:
+        return f.id, None
+    if isinstance(f, ast.Attribute) and f.attr in names and _chain_ok(f.value):
+        return f.attr, f.value
     return None
 
 
@@ -107,18 +184,26 @@ class _Subst(ast.NodeTransformer):
         return n
 
 
-def _expand(call: ast.Call, form: str, target: T.Any, helper: T.Any, method: bool, serial: int, caller_names: set[str] = frozenset()) -> list[ast.stmt] | None:
+def _bind(call: ast.Call, helper: T.Any, receiver: ast.expr | None) -> dict[str, ast.AST] | None:
     params = [a.arg for a in helper.args.args]
     defaults = dict(zip(params[len(params) - len(helper.args.defaults):], helper.args.defaults))
     kwonly = [a.arg for a in helper.args.kwonlyargs]
     for a, d in zip(helper.args.kwonlyargs, helper.args.kw_defaults):
         if d is not None:
             defaults[a.arg] = d
-    if method:
-        if not params or params[0] != "self":
-            return None
-        params = params[1:]
     bound: dict[str, ast.AST] = {}
+    kind = _kind(helper)
+    in_class = getattr(helper, "_in_class", False)
+    if in_class and kind in ("method", "class"):
+        if not params:
+            return None
+        first, params = params[0], params[1:]
+        if kind == "method":
+            if receiver is None:
+                return None
+            bound[first] = receiver
+        else:
+            bound[first] = receiver if receiver is not None else ast.Name(id="type(self)", ctx=ast.Load())
     if any(isinstance(a, ast.Starred) for a in call.args) or any(k.arg is None for k in call.keywords):
         return None
     if len(call.args) > len(params):
@@ -134,13 +219,54 @@ def _expand(call: ast.Call, form: str, target: T.Any, helper: T.Any, method: boo
             if p not in defaults:
                 return None
             bound[p] = defaults[p]
+    return bound
+
+
+def _returns_to(stmts: list[ast.stmt], form: str, target: T.Any, at: ast.AST) -> list[ast.stmt]:
+    """Replace the tail-position returns of `stmts` according to the calling form."""
+    out = list(stmts)
+    if not out:
+        return _no_return(form, target, at)
+    last = out[-1]
+    if isinstance(last, ast.Return):
+        val = last.value
+        if form == "assign":
+            rep = [ast.copy_location(ast.Assign(targets=[_clone(target)], value=val if val is not None else ast.Constant(value=None)), last)]
+        elif form == "return":
+            rep = [ast.copy_location(ast.Return(value=val), last)]
+        elif form == "raise":
+            rep = [ast.copy_location(ast.Raise(exc=val, cause=None), last)]
+        else:
+            rep = [ast.copy_location(ast.Expr(value=val), last)] if val is not None and any(isinstance(x, (ast.Call, ast.Await)) for x in ast.walk(val)) else []
+        return out[:-1] + rep
+    if isinstance(last, ast.If) and (any(isinstance(x, ast.Return) for x in ast.walk(last))):
+        last.body = _returns_to(last.body, form, target, at) or [ast.copy_location(ast.Pass(), last)]
+        last.orelse = _returns_to(last.orelse, form, target, at) if last.orelse else _no_return(form, target, at)
+        return out
+    if isinstance(last, ast.Raise):
+        return out
+    return out + _no_return(form, target, at)
+
+
+def _no_return(form: str, target: T.Any, at: ast.AST) -> list[ast.stmt]:
+    if form == "assign":
+        return [ast.copy_location(ast.Assign(targets=[_clone(target)], value=ast.Constant(value=None)), at)]
+    if form == "return":
+        return [ast.copy_location(ast.Return(value=None), at)]
+    return []
+
+
+def _expand(call: ast.Call, form: str, target: T.Any, helper: T.Any, receiver: ast.expr | None, serial: int, caller_names: T.Container[str] = frozenset()) -> list[ast.stmt] | None:
+    bound = _bind(call, helper, receiver)
+    if bound is None:
+        return None
     assigned = {n.id for n in ast.walk(helper) if isinstance(n, ast.Name) and isinstance(n.ctx, ast.Store)} | \
         {n.name for n in ast.walk(helper) if isinstance(n, ast.ExceptHandler) and n.name}
     pre: list[ast.stmt] = []
     mapping: dict[str, ast.AST] = {}
     rename: dict[str, str] = {}
     for p, a in bound.items():
-        if _simple(a) and p not in assigned:
+        if (_simple(a) or p == "self") and p not in assigned:
             mapping[p] = a
         else:
             tmp = f"{p}__{helper.name.strip('_')}{serial}"
@@ -148,30 +274,18 @@ def _expand(call: ast.Call, form: str, target: T.Any, helper: T.Any, method: boo
             pre.append(ast.copy_location(ast.Assign(targets=[ast.Name(id=tmp, ctx=ast.Store())], value=_clone(a)), call))
     for v in assigned:
         if v not in bound and v in caller_names:
-            # the caller has a variable of the same name: keep them apart (helper locals are dead after the call)
             rename[v] = f"{v}__{helper.name.strip('_')}{serial}"
-    body = [_clone(s) for s in _strip_doc(helper.body)]
+    body = _guard_to_else([_clone(s) for s in _strip_doc(helper.body)])
     sub = _Subst(mapping, rename)
     body = [sub.visit(s) for s in body]
-    out = pre
-    last = body[-1] if body else None
-    if isinstance(last, ast.Return):
-        body = body[:-1]
-        val = last.value
-        if form == "assign":
-            tail: list[ast.stmt] = [ast.copy_location(ast.Assign(targets=[_clone(target)], value=val if val is not None else ast.Constant(value=None)), last)]
-        elif form == "return":
-            tail = [ast.copy_location(ast.Return(value=val), last)]
-        else:
-            tail = [ast.copy_location(ast.Expr(value=val), last)] if val is not None and any(isinstance(x, (ast.Call, ast.Await)) for x in ast.walk(val)) else []
-    else:
-        if form == "assign":
-            tail = [ast.copy_location(ast.Assign(targets=[_clone(target)], value=ast.Constant(value=None)), call)]
-        elif form == "return":
-            tail = [ast.copy_location(ast.Return(value=None), call)]
-        else:
-            tail = []
-    out = out + body + tail
+    # annotations of the helper's locals are dropped in the inlined copy (a local may now be bound at several call sites)
+    class _DeAnn(ast.NodeTransformer):
+        def visit_AnnAssign(self, n: ast.AnnAssign) -> ast.AST:
+            if isinstance(n.target, ast.Name) and n.value is not None:
+                return ast.copy_location(ast.Assign(targets=[n.target], value=n.value), n)
+            return n
+    body = [_DeAnn().visit(s) for s in body]
+    out = pre + _returns_to(body, form, target, call)
     for s in out:
         ast.fix_missing_locations(s)
     return out or [ast.copy_location(ast.Pass(), call)]
@@ -185,83 +299,115 @@ def _blocks(node: ast.AST) -> T.Iterator[list[ast.stmt]]:
                 yield b
 
 
-def _calls_outside_stmt_position(scope: list[T.Any], name: str, method: bool) -> bool:
-    """Is the helper ever called (or referenced) other than as a whole statement?"""
-    for fn in scope:
-        ok_calls = set()
-        for blk in _blocks(fn):
-            for st in blk:
-                c = _call_of(st)
-                if c and _helper_name(c[0], method) == name:
-                    ok_calls.add(id(c[0]))
-        for n in ast.walk(fn):
-            if isinstance(n, ast.Call) and _helper_name(n, method) == name and id(n) not in ok_calls:
-                return True
-            if method and isinstance(n, ast.Attribute) and isinstance(n.value, ast.Name) and n.value.id == "self" and n.attr == name:
-                # referenced as a value (callback) rather than called
-                pass
-    return False
-
-
-def _inline_into(fn: T.Any, helpers: dict[str, T.Any], method: bool, counter: list[int]) -> int:
-    done = 0
-    # names the caller itself uses (outside the helper-call statements)
-    caller_names = {n.id for n in ast.walk(fn) if isinstance(n, ast.Name)} | {a.arg for a in fn.args.args + fn.args.kwonlyargs}
-    for blk in list(_blocks(fn)):
-        i = 0
-        while i < len(blk):
-            st = blk[i]
+def _stmt_calls(fn: T.Any) -> set[int]:
+    ok = set()
+    for blk in _blocks(fn):
+        for st in blk:
             c = _call_of(st)
-            name = _helper_name(c[0], method) if c else None
-            if c and name in helpers and helpers[name] is not fn:
-                counter[0] += 1
-                new = _expand(c[0], c[1], c[2], helpers[name], method, counter[0], caller_names)
-                if new is not None:
-                    blk[i:i + 1] = new
-                    done += 1
-                    i += len(new)
-                    continue
-            i += 1
-    return done
+            if c:
+                ok.add(id(c[0]))
+    return ok
 
 
 def inline_new_helpers(tree: ast.Module, known_functions: set[str]) -> list[str]:
     """Inline private helpers that are not in `known_functions` (keys 'Class.method' / 'function')."""
     notes: list[str] = []
     counter = [0]
-    # methods
-    for cls in [n for n in tree.body if isinstance(n, ast.ClassDef)]:
-        methods = [m for m in cls.body if isinstance(m, FUNC_KINDS)]
-        cand = {m.name: m for m in methods if m.name.startswith("_") and not m.name.startswith("__")
-                and f"{cls.name}.{m.name}" not in known_functions and inlinable(m)}
-        cand = {n: m for n, m in cand.items() if not _calls_outside_stmt_position(methods, n, True)
-                and any(_helper_name(c[0], True) == n for f in methods for blk in _blocks(f) for st in blk for c in [_call_of(st)] if c)}
-        for _ in range(3):
-            if not cand:
-                break
-            n = sum(_inline_into(m, cand, True, counter) for m in methods)
-            if not n:
-                break
-        for name, m in cand.items():
-            still = any(isinstance(n, ast.Attribute) and n.attr == name for n in ast.walk(tree) if not any(n is x for x in ast.walk(m)))
-            if not still and m in cls.body:
-                cls.body.remove(m)
-            notes.append(f"new helper {cls.name}.{name} inlined into its call sites" + ("" if not still else " (kept: still referenced)"))
-    # module-level functions (called from anywhere in the module)
-    funcs = [n for n in tree.body if isinstance(n, FUNC_KINDS)]
-    allf = funcs + [m for c in tree.body if isinstance(c, ast.ClassDef) for m in c.body if isinstance(m, FUNC_KINDS)]
-    cand = {f.name: f for f in funcs if f.name.startswith("_") and not f.name.startswith("__") and f.name not in known_functions and inlinable(f)}
-    cand = {n: f for n, f in cand.items() if not _calls_outside_stmt_position(allf, n, False)
-            and any(_helper_name(c[0], False) == n for g in allf for blk in _blocks(g) for st in blk for c in [_call_of(st)] if c)}
+    allf: list[T.Any] = []
+    new: dict[str, T.Any] = {}
+    owner: dict[str, T.Any] = {}
+    dup: set[str] = set()
+    for n in tree.body:
+        if isinstance(n, FUNC_KINDS):
+            allf.append(n)
+            n._in_class = False  # type: ignore[attr-defined]
+            if n.name.startswith("_") and not n.name.startswith("__") and n.name not in known_functions:
+                (dup.add(n.name) if n.name in new else None)
+                new[n.name] = n
+                owner[n.name] = tree
+        elif isinstance(n, ast.ClassDef):
+            for m in n.body:
+                if isinstance(m, FUNC_KINDS):
+                    allf.append(m)
+                    m._in_class = True  # type: ignore[attr-defined]
+                    if m.name.startswith("_") and not m.name.startswith("__") and f"{n.name}.{m.name}" not in known_functions:
+                        (dup.add(m.name) if m.name in new else None)
+                        new[m.name] = m
+                        owner[m.name] = n
+    # a name defined twice, or also defined by a known function of the module, is ambiguous
+    known_names = {k.split(".")[-1] for k in known_functions}
+    new = {k: v for k, v in new.items() if k not in dup and k not in known_names}
+    if not new:
+        return notes
+    # ---- expression helpers
+    exprs = {k: expression_helper(v) for k, v in new.items()}
+    exprs = {k: v for k, v in exprs.items() if v is not None}
+
+    class ExprInline(ast.NodeTransformer):
+        def __init__(self) -> None:
+            self.done = 0
+
+        def visit_Call(self, n: ast.Call) -> ast.AST:
+            self.generic_visit(n)
+            ref = _helper_ref(n, exprs)
+            if ref is None:
+                return n
+            name, recv = ref
+            helper = new[name]
+            bound = _bind(n, helper, recv)
+            if bound is None:
+                return n
+            res = _Subst(dict(bound), {}).visit(_clone(exprs[name]))
+            for x in ast.walk(res):
+                ast.copy_location(x, n)
+            self.done += 1
+            return res
+
     for _ in range(3):
-        if not cand:
+        t = ExprInline()
+        for f in allf:
+            if f.name in exprs:
+                continue
+            t.generic_visit(f)
+        if not t.done:
             break
-        n = sum(_inline_into(g, cand, False, counter) for g in allf)
-        if not n:
+    # ---- statement helpers
+    stmts = {k: v for k, v in new.items() if k not in exprs and inlinable(v)}
+    for _ in range(3):
+        if not stmts:
             break
-    for name, g in cand.items():
-        still = any(isinstance(n, ast.Name) and n.id == name for n in ast.walk(tree) if not any(n is x for x in ast.walk(g)))
-        if not still and g in tree.body:
-            tree.body.remove(g)
-        notes.append(f"new helper {name} inlined into its call sites")
+        done = 0
+        for f in allf:
+            caller_names = {n.id for n in ast.walk(f) if isinstance(n, ast.Name)} | {a.arg for a in f.args.args + f.args.kwonlyargs}
+            for blk in list(_blocks(f)):
+                i = 0
+                while i < len(blk):
+                    c = _call_of(blk[i])
+                    ref = _helper_ref(c[0], stmts) if c else None
+                    if c and ref and stmts[ref[0]] is not f:
+                        helper = stmts[ref[0]]
+                        is_async_call = isinstance(getattr(blk[i], "value", getattr(blk[i], "exc", None)), ast.Await)
+                        if isinstance(helper, ast.AsyncFunctionDef) == is_async_call:
+                            counter[0] += 1
+                            out = _expand(c[0], c[1], c[2], helper, ref[1], counter[0], caller_names)
+                            if out is not None:
+                                blk[i:i + 1] = out
+                                done += 1
+                                i += len(out)
+                                continue
+                    i += 1
+        if not done:
+            break
+    # ---- drop helpers that are no longer referenced
+    for name, h in new.items():
+        if name not in exprs and name not in stmts:
+            continue
+        still = any((isinstance(n, ast.Attribute) and n.attr == name) or (isinstance(n, ast.Name) and n.id == name)
+                    for f in allf if f is not h for n in ast.walk(f))
+        body = owner[name].body
+        if not still and h in body:
+            body.remove(h)
+            if not body:
+                body.append(ast.Pass())
+        notes.append(f"new helper {name} inlined into its call sites" + ("" if not still else " (kept: still referenced)"))
     return notes
